@@ -474,7 +474,10 @@ class BaseTemplateFile(BaseTemplate):
 
     def _get_module_name(self, name: str) -> str:
         filename = os.path.basename(str(self.filename))
-        mangled = mangle(filename)
+        # The readable part is informational (the digest covers the whole
+        # path); it is kept short so that the entry, the temporary file
+        # and the byte-code file all stay within the file name limit.
+        mangled = mangle(filename)[:40]
         return "{}_{}.py".format(mangled, name)
 
     def _get_filename(self) -> StrPath:
